@@ -119,8 +119,10 @@ where
     /// When this event is later triggered, the backend implementation of `handle_event` will be
     /// called.
     pub fn register_listener(&self, fd: RawFd, ev_type: EventSet, data: u64) -> Result<()> {
-        // `data` range [0...num_queues] is reserved for queues and exit event.
-        if data <= self.backend.num_queues() as u64 {
+        // `data` range [0...num_queues] is reserved for queues and exit event, and the backend's
+        // `handle_event()` receives the value as a `u16`: anything larger would be truncated and
+        // could be mistaken for a queue or the exit event.
+        if data <= self.backend.num_queues() as u64 || data > u64::from(u16::MAX) {
             Err(io::Error::from_raw_os_error(libc::EINVAL))
         } else {
             self.register_event(fd, ev_type, data)
@@ -132,8 +134,10 @@ where
     /// If the event is triggered after this function has been called, the event will be silently
     /// dropped.
     pub fn unregister_listener(&self, fd: RawFd, ev_type: EventSet, data: u64) -> Result<()> {
-        // `data` range [0...num_queues] is reserved for queues and exit event.
-        if data <= self.backend.num_queues() as u64 {
+        // `data` range [0...num_queues] is reserved for queues and exit event, and the backend's
+        // `handle_event()` receives the value as a `u16`: anything larger would be truncated and
+        // could be mistaken for a queue or the exit event.
+        if data <= self.backend.num_queues() as u64 || data > u64::from(u16::MAX) {
             Err(io::Error::from_raw_os_error(libc::EINVAL))
         } else {
             self.unregister_event(fd, ev_type, data)
